@@ -57,7 +57,7 @@ impl Scenario for Timed {
         format!("timed-{:?}-{:?}-{}{}{}", self.slots, self.symbols, self.intervals, if self.handshaken { "" } else { "-nohs" }, if self.outgoing { "" } else { "-incoming" })
     }
     fn cfg(&self) -> WorldCfg {
-        WorldCfg { torrent: Torrent::new("t", 16384, &[("f", 16384 * 2)], true), have: vec![], peers: vec![peer_cfg(0, self.outgoing)], gated: false }
+        WorldCfg { torrent: Torrent::new("t", 16384, &[("f", 16384 * 2)], true), have: vec![], peers: vec![peer_cfg(0, self.outgoing)], gated: false, stale: vec![] }
     }
     fn setup(&self, w: &mut World, mon: &mut Mon) {
         if self.handshaken {
@@ -162,6 +162,123 @@ impl Scenario for Timed {
     }
 }
 
+// -------------------------------------------------------------------------------------------
+// Two connections: A is silent (keep-alives at most) while B keeps completing the pieces both were
+// asked for; the manager re-assigns A each time
+// -------------------------------------------------------------------------------------------
+
+pub struct Duo {
+    pub pieces: usize,
+    pub intervals: u64,
+}
+
+#[derive(Default)]
+pub struct DuoMon {
+    pub slot: u64,
+    pub b_outstanding: Vec<(u32, u32, u32)>,
+    pub b_scanned: usize,
+    pub a_last_live_ms: u64,
+}
+
+impl Duo {
+    fn slot_time_ms(&self, slot: u64) -> u64 {
+        // two slots per interval, at +40 s and +100 s
+        (slot / 2) * 120_000 + if slot % 2 == 0 { 40_000 } else { 100_000 }
+    }
+}
+
+impl Scenario for Duo {
+    type Mon = DuoMon;
+    fn name(&self) -> String {
+        format!("duo-{}pieces-{}", self.pieces, self.intervals)
+    }
+    fn cfg(&self) -> WorldCfg {
+        WorldCfg { torrent: Torrent::new("t", 5, &[("f", 5 * self.pieces)], true), have: vec![], peers: vec![peer_cfg(0, true), peer_cfg(1, true)], gated: false, stale: vec![] }
+    }
+    fn explore_choices(&self) -> bool {
+        true
+    }
+    fn setup(&self, w: &mut World, _mon: &mut DuoMon) {
+        let t = w.t.clone();
+        let all = refwire::bitfield_bytes(&vec![true; self.pieces]);
+        for k in 0..2 {
+            let id = w.peers[k].cfg.id;
+            w.feed(k, &[refwire::handshake(t.meta.info_hash(), &id), Msg::Bitfield(all.clone()), Msg::Unchoke]);
+        }
+    }
+    fn enabled(&self, w: &World, mon: &DuoMon, _depth: usize) -> Vec<String> {
+        if mon.slot >= self.intervals * 2 {
+            return vec![];
+        }
+        let mut e = vec!["nothing".to_string()];
+        if !w.peers[0].ended.get() {
+            e.push("Akeepalive".to_string());
+        }
+        if !w.peers[1].ended.get() && !mon.b_outstanding.is_empty() {
+            e.push("Banswer".to_string());
+        }
+        if !w.peers[1].ended.get() {
+            e.push("Bhave".to_string()); // any live message keeps B alive
+        }
+        e
+    }
+    fn concretize(&self, w: &World, mon: &DuoMon, sym: &str) -> Vec<Ev> {
+        let mut evs = vec![Ev::AdvanceTo(self.slot_time_ms(mon.slot))];
+        match sym {
+            "Akeepalive" => evs.push(Ev::Feed(0, refwire::encode(&Msg::KeepAlive))),
+            "Bhave" => evs.push(Ev::Feed(1, refwire::encode(&Msg::Have(0)))),
+            "Banswer" => {
+                let r = mon.b_outstanding[0];
+                evs.push(Ev::Feed(1, refwire::encode(&Msg::Piece(r.0, r.1, w.t.pieces[r.0 as usize][r.1 as usize..(r.1 + r.2) as usize].to_vec()))));
+            }
+            _ => {}
+        }
+        evs
+    }
+    fn check(&self, w: &World, mon: &mut DuoMon, last: Option<&str>) -> Option<(&'static str, String)> {
+        if let Some(d) = &w.dead {
+            return Some(("manager-died", d.clone()));
+        }
+        if let Some(p) = w.handler_panics.first() {
+            return Some(("connection-task-panicked", p.clone()));
+        }
+        let now = if last.is_some() { self.slot_time_ms(mon.slot) } else { 0 };
+        if let Some(sym) = last {
+            if sym == "Banswer" {
+                mon.b_outstanding.remove(0);
+            }
+            mon.slot += 1;
+        }
+        for m in &w.peers[1].msgs[mon.b_scanned..] {
+            match m {
+                Msg::Request(a, b, l) => mon.b_outstanding.push((*a, *b, *l)),
+                Msg::Cancel(a, b, l) => mon.b_outstanding.retain(|r| r != &(*a, *b, *l)),
+                _ => {}
+            }
+        }
+        mon.b_scanned = w.peers[1].msgs.len();
+        // A delivered nothing but keep-alives since t = 0 (its handshake, bitfield and unchoke)
+        let a = &w.peers[0];
+        let listed = w.snap().peers.iter().any(|x| x.addr == a.cfg.addr);
+        if now >= mon.a_last_live_ms + 360_000 && (!a.ended.get() || listed) {
+            return Some((
+                "silent-peer-not-dropped",
+                format!("connection A delivered nothing but keep-alives since t={} s, now t={} s: task ended={}, manager still lists it={} (B completed pieces meanwhile: statuses {:?})", mon.a_last_live_ms / 1000, now / 1000, a.ended.get(), listed, w.snap().statuses),
+            ));
+        }
+        if a.ended.get() && !listed {
+            // its reservation must be gone: nothing may stay reserved for a peer that is not there
+            if let Some(v) = crate::c12::reservation_backing(w) {
+                return Some(v);
+            }
+        }
+        None
+    }
+    fn key(&self, w: &World, mon: &DuoMon) -> String {
+        format!("{} slot={} bout={:?}", w.default_key(), mon.slot, mon.b_outstanding)
+    }
+}
+
 pub fn scenarios(thorough: bool) -> Vec<Timed> {
     if thorough {
         vec![
@@ -192,10 +309,16 @@ pub fn run(ctx: &Ctx) -> Outcome {
         per.push(json!({"scenario": s.name(), "states": st.states, "transitions": st.transitions, "depth_completed": st.depth_completed, "timed_scripts_covered": scripts, "frontier": st.frontier_sizes}));
         total.merge(&st);
     }
+    for d in if ctx.tier == core::Tier::Thorough { vec![Duo { pieces: 4, intervals: 5 }, Duo { pieces: 6, intervals: 6 }] } else { vec![Duo { pieces: 4, intervals: 4 }] } {
+        let depth = (d.intervals * 2) as usize;
+        let st = explore::bfs(ctx, &d, depth, ctx.tier.pick(20, 10));
+        per.push(json!({"scenario": Scenario::name(&d), "states": st.states, "transitions": st.transitions, "depth_completed": st.depth_completed}));
+        total.merge(&st);
+    }
     let mut o = Outcome::new("model_checking");
     explore::stats_outcome(&total, &mut o);
     o.set("scenarios", Value::Array(per));
-    o.set("rule", json!("each 120 s keep-alive interval is cut at the listed slot offsets; an event = advance the paused clock to the next slot, then feed one symbol of the alphabet (or nothing); BFS over all scripts for the stated number of intervals; states are merged when manager snapshot, connection-task snapshot (keep-alive counter, flags, reservation, byte counters), slot number and the monitor's summary agree, so the number of timed scripts covered (symbols^slots) is far larger than the number of states"));
+    o.set("rule", json!("each 120 s keep-alive interval is cut at the listed slot offsets; an event = advance the paused clock to the next slot, then feed one symbol of the alphabet (or nothing); BFS over all scripts for the stated number of intervals; states are merged when manager snapshot, connection-task snapshot (keep-alive counter, flags, reservation, byte counters), slot number and the monitor's summary agree, so the number of timed scripts covered (symbols^slots) is far larger than the number of states. duo-* scenarios: two connections asked for the same pieces (end game); A sends at most keep-alives, B answers its outstanding request (completing a piece, which cancels and re-assigns A) or sends another live message, at two slots per interval; A must be gone 360 s after its last live message whatever B does."));
     o.assume("the connection holds a reservation (handshake, bitfield, unchoke are fed at t=0) except in the -nohs scenarios, where the peer is silent from the start or handshakes at some slot (outgoing and incoming connections); messages arrive at slot times only, i.e. at fixed offsets from the 120 s timer; slots at +1 s and +119 s probe both sides of each tick");
     o.assume("merging states by (real state, slot, which interval the last live message fell into) is sound for the oracle because (a)-(c) only read those");
     o
@@ -203,6 +326,11 @@ pub fn run(ctx: &Ctx) -> Outcome {
 
 pub fn replay(_ctx: &Ctx, r: &Value) -> i32 {
     let name = r["scenario"].as_str().unwrap();
+    if let Some(rest) = name.strip_prefix("duo-") {
+        let pieces: usize = rest.split("pieces-").next().unwrap().parse().unwrap();
+        let intervals: u64 = rest.split("pieces-").nth(1).unwrap().parse().unwrap();
+        return explore::replay_verbose(&Duo { pieces, intervals }, &explore::hist_from_json(&r["history"]), "C20");
+    }
     for thorough in [false, true] {
         for s in scenarios(thorough) {
             if s.name() == name {
